@@ -204,7 +204,9 @@ func TestC03Soup(t *testing.T) {
 		}
 		col.Class("kind:" + kind)
 		col.Class("outcome:" + outcome)
-		col.Case(script, changed, func() interface{} { return map[string]interface{}{"script": clip(script, 500), "kind": kind, "outcome": outcome} })
+		col.Case(script, changed, func() interface{} {
+			return map[string]interface{}{"script": clip(script, 500), "kind": kind, "outcome": outcome}
+		})
 	})
 }
 
